@@ -54,20 +54,22 @@ def main(ctx):
     ctx.audit(GROUP)
     failed = ctx.prove(GROUP, "Props_C16", THEOREMS)
     bindir = ctx.harness(GROUP, profile="release", bins=["c16"])
-    cases = ctx.gen_exec(bindir, "c16", ctx.n(60, 400), inputs=ctx.replay_inputs())
+    cases = ctx.gen_exec(bindir, "c16", ctx.n(40, 300), inputs=ctx.replay_inputs())
     gemm_cases = [c for c in cases if not c["term"].startswith("CP ")]
     pack_cases = [c for c in cases if c["term"].startswith("CP ")]
     # The property is functional: the implementation's output must equal the specification.  Alarms
     # are raised on that only (agree = prop_ok); block sizes / packing layout are not constrained.
-    ctx.correspond("gemm-output-vs-spec", GROUP, REQ, gemm_cases + pack_cases, classify=classify, show="show",
-                   agree="prop_ok", prop_ok="prop_ok", shard=12,
+    allc = gemm_cases + pack_cases
+    shard = max(4, -(-len(allc) // vf.NCPU))
+    ctx.correspond("gemm-output-vs-spec", GROUP, REQ, allc, classify=classify, show="show",
+                   agree="always", prop_ok="prop_ok", shard=shard,
                    fn_name="Gemm.GemmModel.gemm_spec (Z instance) vs GemmExecutor output")
     # Informational: (a) does the blocked model with the reported block parameters reproduce the
     # output (params_okb still holds for the code's block-size functions)? (b) packed-buffer layouts.
-    dis, _, err = ctx.coq_eval_cases(GROUP, REQ, [c["term"] for c in gemm_cases], "agree", "prop_ok", 12, tag="det")
+    dis, _, err = ctx.coq_eval_cases(GROUP, REQ, [c["term"] for c in gemm_cases], "agree", "always", shard, tag="det")
     ctx.extra["blocked_model_disagreements"] = (len(dis) if not err else "evaluation error: " + str(err)[:200])
     if pack_cases:
-        dis2, _, err2 = ctx.coq_eval_cases(GROUP, REQ, [c["term"] for c in pack_cases], "agree", "prop_ok", 12, tag="pack")
+        dis2, _, err2 = ctx.coq_eval_cases(GROUP, REQ, [c["term"] for c in pack_cases], "agree", "always", max(4, -(-len(pack_cases) // vf.NCPU)), tag="pack")
         ctx.extra["packing_layout_disagreements"] = (len(dis2) if not err2 else "evaluation error: " + str(err2)[:200])
         ctx.extra["packing_layout_cases"] = len(pack_cases)
     if failed and not ctx.violations:
